@@ -39,6 +39,10 @@ CLAIMED = {
    tech="TLA+ spec BillStat.tla model-checked by TLC; TLC-generated and seeded action sequences replayed on the real RuntimeRecorder through a gating Uploader; recorded traces validated by TLC (TraceBillStat.tla)",
    text="TLC enumerates every interleaving of Record / reset / upload-ok / upload-fail for 2-3 devices and up to two overlapping refreshes and checks conservation, no-double-count and metadata-latest in every state; the same actions are forced on the real recorder (the Uploader is the gate) and every observed state is checked by TLC against the spec, so a code change that breaks conservation on some interleaving is rejected at the step where it diverges.",
    note=TRUST + "r.records is read under r.mu; the scripted Uploader is the only exit of records; the free-running stress only validates quiescent totals.", ref="6 C16"),
+ "C17": dict(
+   tech="TLA+ spec Forward.tla (refresh as probe-by-probe then swap, per-upstream back-off ages, free health environment) model-checked by TLC incl. liveness ReturnsAfterRecovery and two sanity configs; TLC-generated and seeded schedules run on the real forward.Handler with scripted upstreams under a virtual clock; traces validated by TLC (TraceForward.tla)",
+   text="TLC explores all schedules of health changes (up / servfail / network error / mismatching reply) of 2 mains and 0-1 fallbacks, clock ticks, refresh rounds whose probes interleave with queries, and checks answered-by-chosen-main, fallback exactly once on network error or empty active set, SERVFAIL only if everything tried failed, active = probed-OK outside a refresh, no probe inside the back-off, never demoted without fallbacks, and (under fairness) return after recovery. The real Handler (upstreams replaced in-package by scripted ones; queries also issued from inside a probe's exchange, i.e. between two probes) is driven through those schedules and every probe, refresh result and query (which upstreams saw it, who answered) is explained by the spec.",
+   note=TRUST + "upstreams scripted at the forward.Upstream interface; virtual clock by overlay rewrite of healthcheck.go (fails closed); reply validation of the plain upstream client (ID / name / type) is exercised through C06's upstream receive paths.", ref="6 C17"),
  "C18": dict(
    tech="TLA+ specs ConnLimiter.tla (explicit condition variable) and Pipeline.tla model-checked by TLC incl. liveness; action sequences replayed on real limitListeners (inner listener as gate, parked goroutines from runtime.Stack) and on real TCP/DoT servers; traces validated by TLC with silent TryInc steps",
    text="TLC explores all interleavings of accept / park / wake / inner accept / close / double close / listener shutdown for 2-3 listeners and every stop>=resume up to 4 and checks bound, exact counter, hysteresis, no lost wake-up and release of waiters; sanity configs show that the two defects of the pinned tree (Signal, slot taken before the closed check) are expressible. Real limiters are then driven through TLC-generated and random schedules and every quiescent state is matched by TLC against the spec; pipeline bursts on real servers are validated against Pipeline.tla.",
